@@ -11,6 +11,25 @@ fn gen_history(r: &mut Rng, cfg: &SysCfg, ntypes: u64, len: usize, crashes: bool
     let mut ops = vec![];
     let mut k = 0u64;
     let nctx = 1 + r.below(3);
+    // burst shape: many overlapping rotations (more than max_inflight_passives = 8) queue up
+    // behind a flush worker that has not started writing, then reads, then the backlog drains
+    if !crashes && ntypes == 1 && cfg.capacity() <= 3 && r.chance(1, 3) {
+        let rotations = 9 + r.below(6) as usize;
+        let extra = r.below(cfg.capacity() as u64) as usize;
+        for _ in 0..(rotations * cfg.capacity() + extra) {
+            k += 1;
+            ops.push(Op::S { k, ctx: r.below(nctx), ty: 0 });
+        }
+        ops.push(Op::R);
+        for _ in 0..r.below(8) {
+            ops.push(Op::Adv);
+        }
+        ops.push(Op::R);
+        ops.push(Op::Run);
+        ops.push(Op::R);
+        ops.push(Op::Ls);
+        return ops;
+    }
     for _ in 0..len {
         let x = r.below(100);
         let op = if x < 50 {
@@ -45,6 +64,10 @@ fn witnesses() -> Vec<(SysCfg, u64, Vec<Op>)> {
     vec![
         // C03-count-dup-flush-window: files written, passive buffer not yet released
         (c2.clone(), 1, vec![s(1), s(2), Op::Adv, Op::Adv, Op::R, Op::Run, Op::R]),
+        // more overlapping rotations than max_inflight_passives (8), none written yet: every
+        // acknowledged event must still be visible (regression guard, expected to hold)
+        (SysCfg { event_per_zone: 1, fill_factor: 1, ..Default::default() }, 1,
+         (1..=11).map(s).chain([Op::R, Op::Run, Op::R]).collect()),
         // C03-inflight-hides-published: a second rotation in flight (no files yet) next to a published segment
         (c2.clone(), 1, vec![s(1), s(2), Op::Run, s(3), s(4), Op::R, Op::R, Op::R, Op::R, Op::R, Op::R, Op::Run, Op::R]),
     ]
